@@ -274,6 +274,17 @@ inline std::vector<TAtom> tangents(const ref::Group& g, const Cfg& c, Level lv, 
   return out;
 }
 
+// deterministic thinning of a table: every stride-th cell starting at (seed mod stride); the stride is chosen
+// coprime to 2 and 3 (the inner loop lengths of the tables) so that every atom of every axis keeps appearing
+template <class V> std::vector<V> thin(const std::vector<V>& v, size_t cap, long seed = 0) {
+  if (v.size() <= cap || cap == 0) return v;
+  size_t stride = (v.size() + cap - 1) / cap;
+  while (stride % 2 == 0 || stride % 3 == 0) ++stride;
+  std::vector<V> out;
+  for (size_t i = (size_t)(seed < 0 ? -seed : seed) % stride; i < v.size(); i += stride) out.push_back(v[i]);
+  return out;
+}
+
 // an element atom: coefficient vector (long double, unit rotation parts) + key
 struct XAtom {
   Vec c;
